@@ -559,9 +559,10 @@ Fixpoint split_lines (bytes : bool) (cur : str) (s : str) : list str :=
       else split_lines bytes (c :: cur) r
   end.
 
-(* STRING_LITERAL1/2:  q (?:[^q\n\r\\]|\\[q ntbrf\\])* q (?!q) ; returns the raw inside and the rest *)
-Definition echar_ok (q e : N) : bool :=
-  (e =? q) || (e =? 110) || (e =? 116) || (e =? 98) || (e =? 114) || (e =? 102) || (e =? 92).
+(* STRING_LITERAL1/2:  q (?:[^q\n\r\\]|\\[BOTHQUOTES ntbrf\\])* q (?!q) ; returns the raw inside and the rest.
+   Since 93b4b6b9 the escape of either quote character is accepted in both forms. *)
+Definition echar_ok (e : N) : bool :=
+  (e =? 34) || (e =? 39) || (e =? 110) || (e =? 116) || (e =? 98) || (e =? 114) || (e =? 102) || (e =? 92).
 
 Fixpoint scan_string (q : N) (s : str) : option (str * str) :=
   match s with
@@ -574,7 +575,7 @@ Fixpoint scan_string (q : N) (s : str) : option (str * str) :=
         end
       else if c =? 92 then
         match r with
-        | e :: r' => if echar_ok q e then
+        | e :: r' => if echar_ok e then
                        match scan_string q r' with
                        | Some (raw, rest) => Some (c :: e :: raw, rest)
                        | None => None
@@ -786,12 +787,17 @@ Fixpoint tsv_rows (vars : list str) (lines : list str) : option (list prow) :=
         end
   end.
 
+(* str.rstrip("\r\n") *)
+Fixpoint drop_crlf (s : str) : str :=
+  match s with c :: r => if (c =? 13) || (c =? 10) then drop_crlf r else s | [] => [] end.
+Definition rstrip_crlf (s : str) : str := rev (drop_crlf (rev s)).
+
 (* TSVResultParser.parse *)
 Definition tsv_parse (bytes : bool) (doc : str) : obs :=
   match split_lines bytes [] doc with
   | [] => OErr                                 (* HEADER cannot match "" *)
   | h :: lines =>
-      let h' := py_strip h in
+      let h' := rstrip_crlf h in               (* header.rstrip("\r\n"), since 9f983466 *)
       match scan_header (S (List.length h')) h' with
       | None => OErr
       | Some vars => match tsv_rows vars lines with Some rows => OSel vars rows | None => OErr end
@@ -956,13 +962,7 @@ Definition all_unbound (vars : list str) (r : row) : bool :=
 
 Definition raw_break (c : N) : bool := is_break c && negb (c =? 10).
 
-Definition uses_cross (st : style) (t : term) : bool :=
-  match t with
-  | Lit lex _ _ => st_cross st && existsb (fun c => if st_sq st then c =? 34 else c =? 39) lex
-  | _ => false
-  end.
-
-(* 0 = none; 1 = F11h, 2 = F11b, 3 = F11c, 4 = F11d, 5 = F11e, 6 = F11f *)
+(* 0 = none; 2 = F11b, 3 = F11c, 4 = F11d, 5 = F11e *)
 Definition kf (c : case) : N :=
   match c_fmt c, c_ask c with
   | FXml, None =>
@@ -972,9 +972,7 @@ Definition kf (c : case) : N :=
       else if existsb empty_iri (case_terms c) then 4
       else 0
   | FTsv, _ =>
-      if py_isspace (last (render_header (c_vars c)) 0) then 1     (* header.strip() eats the end of the last name *)
-      else if c_bytes c && existsb raw_break (render_doc (c_style c) (c_vars c) (c_rows c)) then 5
-      else if existsb (uses_cross (c_style c)) (case_terms c) then 6
+      if c_bytes c && existsb raw_break (render_doc (c_style c) (c_vars c) (c_rows c)) then 5
       else 0
   | _, _ => 0
   end.
